@@ -614,6 +614,8 @@ pub fn main(args: &[String]) -> i32 {
     let seed = arg_u64(args, "--seed", 1);
     let threads = arg_u64(args, "--threads", 4) as usize;
     let dfs_depth = arg_u64(args, "--dfs-depth", 2) as usize;
+    // RocksDB opens are expensive: its exhaustive part may be shallower
+    let dfs_depth_rocksdb = arg_u64(args, "--dfs-depth-rocksdb", dfs_depth as u64) as usize;
     let reopen_pct = arg_u64(args, "--reopen-pct", 25);
     let scratch = PathBuf::from(arg(args, "--scratch").expect("--scratch"));
     let engines: Vec<String> =
@@ -646,7 +648,7 @@ pub fn main(args: &[String]) -> i32 {
     let mut items = vec![];
     for en in &engines {
         // all paths of length <= dfs_depth: work item per first edge
-        if dfs_depth >= 1 {
+        if (if en == "rocksdb" { dfs_depth_rocksdb } else { dfs_depth }) >= 1 {
             for k in 0..g.out[g.init].len() {
                 items.push(Item::Dfs(en.clone(), vec![k]));
             }
@@ -779,7 +781,7 @@ pub fn main(args: &[String]) -> i32 {
                                 let f = rt.block_on(execute(g, engine, p, None, &dir));
                                 record(f, p, engine);
                             };
-                            rec(g, e0.to, &mut path, dfs_depth, &mut run);
+                            rec(g, e0.to, &mut path, if engine == "rocksdb" { dfs_depth_rocksdb } else { dfs_depth }, &mut run);
                         }
                     }
                 }
